@@ -796,9 +796,19 @@ class DataFrameSchemaBackend(PandasSchemaBackend):
         # NOTE: fix this pylint error
         # pylint: disable=not-an-iterable
         keep_setting = convert_uniquesettings(schema.report_duplicates)
+        # a list of lists/tuples declares several sets of jointly unique
+        # columns; strings, integers and tuples that name a column (MultiIndex
+        # columns) are the labels of a single set
+
+        def _is_label(x) -> bool:
+            return not isinstance(x, (list, tuple)) or (
+                isinstance(x, tuple)
+                and (x in schema.columns or x in check_obj.columns)
+            )
+
         temp_unique: List[List] = (
             [schema.unique]
-            if all(isinstance(x, str) for x in schema.unique)
+            if all(_is_label(x) for x in schema.unique)
             else schema.unique
         )
         for lst in temp_unique:
